@@ -45,10 +45,16 @@ def Ledger.find (L : Ledger) (p : Nat × Nat) : Option UEntry :=
 
 def blockIns (b : Block) : List (Nat × Nat) := b.txs.flatMap txIns
 
+/-- the height the maturity rule counts from: `CheckTransactionCoinbaseOutputLock` reads the coinbase's
+    LockTime, not the height of its block. The harness builds coinbases with LockTime = block height; a
+    coinbase copied from another block carries its lock time as its one payload datum (decimal). -/
+def entryHeight (b : Block) (tx : Tx) : Nat :=
+  if tx.kind == .coinbase then (tx.pdatas.head?.bind String.toNat?).getD b.height else b.height
+
 def newEntries (b : Block) : List UEntry :=
   b.txs.flatMap fun tx =>
     (outsIdx tx.outs).map fun p =>
-      { txid := tx.id, idx := p.1, addr := p.2.addr, value := p.2.value, height := b.height,
+      { txid := tx.id, idx := p.1, addr := p.2.addr, value := p.2.value, height := entryHeight b tx,
         cb := tx.kind == .coinbase }
 
 /-- connect a block to a ledger (no validity check here) -/
@@ -84,6 +90,7 @@ def nodupB {α : Type} [BEq α] : List α → Bool
 
 /-- context-free transaction checks the generated class can fail -/
 def txSane (tx : Tx) : Bool :=
+  tx.kind != .registerAsset &&   -- RegisterAssetTransaction.CheckTransactionInput: genesis only (fix bcb6426e)
   !tx.ins.isEmpty && !tx.outs.isEmpty && nodupB tx.ins &&
   tx.outs.all fun o => o.value ≥ 0
 
